@@ -370,7 +370,10 @@ func (ssn *Session) recoverAllocatedHyperNode(job *api.JobInfo, hyperNodeSet set
 
 	// update subJob AllocatedHyperNode based on allocated nodes
 	for _, subJob := range job.SubJobs {
-		if !subJob.WithNetworkTopology() || subJob.AllocatedHyperNode != "" {
+		// A subJob without a topology of its own is still confined by the topology of its job
+		// (allocateForSubJob records its AllocatedHyperNode as well), so its placed tasks count
+		// for the job: only skip it when neither the subJob nor the job is constrained.
+		if (!subJob.WithNetworkTopology() && !job.WithNetworkTopology()) || subJob.AllocatedHyperNode != "" {
 			continue
 		}
 
